@@ -5,6 +5,7 @@ package main
 import (
 	"go/token"
 	"go/types"
+	"sort"
 	"strings"
 
 	"golang.org/x/tools/go/ssa"
@@ -286,106 +287,115 @@ func runWmWaiters(c *Ctx, r *RuleRun) {
 		return
 	}
 	p := c.P
-	f := a.process
-	fn := p.FnName(f)
-	// close loops: close(ch) calls inside a loop, with the slice they range over
 	type closeLoop struct {
 		call   *ssa.Call
 		header *ssa.If
 	}
-	var loops []closeLoop
-	eachInstr(f, func(ins ssa.Instruction) {
-		cl, ok := ins.(*ssa.Call)
-		if !ok {
-			return
-		}
-		bi, ok := cl.Call.Value.(*ssa.Builtin)
-		if !ok || bi.Name() != "close" || !inLoop(cl.Block()) {
-			return
-		}
-		// innermost loop header: nearest dominator that ends in an If, lies on a cycle with the close and has an exit
-		for b := cl.Block(); b != nil; b = b.Idom() {
-			if len(b.Instrs) == 0 {
-				continue
-			}
-			iff, isIf := b.Instrs[len(b.Instrs)-1].(*ssa.If)
-			if !isIf {
-				continue
-			}
-			natural := false
-			for _, pr := range b.Preds {
-				if b.Dominates(pr) && (pr == cl.Block() || reaches(cl.Block(), pr)) {
-					natural = true
-				}
-			}
-			if natural {
-				loops = append(loops, closeLoop{cl, iff})
-				break
-			}
-		}
-	})
-	sameEntry := func(chSrc ssa.Value, key ssa.Value) bool {
-		// the closed channel comes from the entry stored under key: the value of the same map-range step, or a lookup
-		return p.dependsOn(chSrc, func(x ssa.Value) bool {
-			switch y := x.(type) {
-			case *ssa.Extract:
-				if ke, ok := stripValue(key).(*ssa.Extract); ok && y.Tuple == ke.Tuple && y.Index != ke.Index {
-					return true
-				}
-			case *ssa.Lookup:
-				return isWaiterMap(y.X.Type()) && sameSource(y.Index, key)
-			}
-			return false
-		})
-	}
 	n := 0
-	eachInstr(f, func(ins ssa.Instruction) {
-		switch x := ins.(type) {
-		case *ssa.Call:
-			bi, ok := x.Call.Value.(*ssa.Builtin)
-			if !ok || bi.Name() != "delete" || !isWaiterMap(x.Call.Args[0].Type()) {
+	// the consumer and the helpers of its package it reaches
+	var fns []*ssa.Function
+	for g := range p.Reach(a.process) {
+		if g.Pkg == a.process.Pkg {
+			fns = append(fns, g)
+		}
+	}
+	sort.Slice(fns, func(i, j int) bool { return fns[i].Pos() < fns[j].Pos() })
+	for _, f := range fns {
+		fn := p.FnName(f)
+		// close loops: close(ch) calls inside a loop, with the slice they range over
+		var loops []closeLoop
+		eachInstr(f, func(ins ssa.Instruction) {
+			cl, ok := ins.(*ssa.Call)
+			if !ok {
 				return
 			}
-			n++
-			key := x.Call.Args[1]
-			var headers []*ssa.If
-			for _, l := range loops {
-				if sameEntry(l.call.Call.Args[0], key) {
-					headers = append(headers, l.header)
+			bi, ok := cl.Call.Value.(*ssa.Builtin)
+			if !ok || bi.Name() != "close" || !inLoop(cl.Block()) {
+				return
+			}
+			// innermost loop header: nearest dominator that ends in an If, lies on a cycle with the close and has an exit
+			for b := cl.Block(); b != nil; b = b.Idom() {
+				if len(b.Instrs) == 0 {
+					continue
+				}
+				iff, isIf := b.Instrs[len(b.Instrs)-1].(*ssa.If)
+				if !isIf {
+					continue
+				}
+				natural := false
+				for _, pr := range b.Preds {
+					if b.Dominates(pr) && (pr == cl.Block() || reaches(cl.Block(), pr)) {
+						natural = true
+					}
+				}
+				if natural {
+					loops = append(loops, closeLoop{cl, iff})
+					break
 				}
 			}
-			ok2 := len(headers) > 0
-			if ok2 {
-				q := PathQuery{P: p, Fn: f, Target: func(i ssa.Instruction) bool { return i == ssa.Instruction(x) }, Avoid: func(i ssa.Instruction) bool {
-					for _, h := range headers {
-						if i == ssa.Instruction(h) {
-							return true
+		})
+		sameEntry := func(chSrc ssa.Value, key ssa.Value) bool {
+			// the closed channel comes from the entry stored under key: the value of the same map-range step, or a lookup
+			return p.dependsOn(chSrc, func(x ssa.Value) bool {
+				switch y := x.(type) {
+				case *ssa.Extract:
+					if ke, ok := stripValue(key).(*ssa.Extract); ok && y.Tuple == ke.Tuple && y.Index != ke.Index {
+						return true
+					}
+				case *ssa.Lookup:
+					return isWaiterMap(y.X.Type()) && sameSource(y.Index, key)
+				}
+				return false
+			})
+		}
+		eachInstr(f, func(ins ssa.Instruction) {
+			switch x := ins.(type) {
+			case *ssa.Call:
+				bi, ok := x.Call.Value.(*ssa.Builtin)
+				if !ok || bi.Name() != "delete" || !isWaiterMap(x.Call.Args[0].Type()) {
+					return
+				}
+				n++
+				key := x.Call.Args[1]
+				var headers []*ssa.If
+				for _, l := range loops {
+					if sameEntry(l.call.Call.Args[0], key) {
+						headers = append(headers, l.header)
+					}
+				}
+				ok2 := len(headers) > 0
+				if ok2 {
+					q := PathQuery{P: p, Fn: f, Target: func(i ssa.Instruction) bool { return i == ssa.Instruction(x) }, Avoid: func(i ssa.Instruction) bool {
+						for _, h := range headers {
+							if i == ssa.Instruction(h) {
+								return true
+							}
+						}
+						return false
+					}}
+					ok2 = q.FindPath() == nil
+				}
+				r.Check(ok2, fn, "waiters removed only after being closed", p.Pos(instrPos(x)), "the delete follows the loop that closes every channel of the entry",
+					"an entry is deleted from the waiter table without its channels having been closed: a goroutine blocked in WaitForMark on that index is never released although the watermark reaches it")
+			case *ssa.MapUpdate:
+				if !isWaiterMap(x.Map.Type()) {
+					return
+				}
+				n++
+				good := false
+				if cl, ok := x.Value.(*ssa.Call); ok {
+					if bi, ok := cl.Call.Value.(*ssa.Builtin); ok && bi.Name() == "append" {
+						if lk, ok := cl.Call.Args[0].(*ssa.Lookup); ok && lk.X == x.Map && sameSource(lk.Index, x.Key) {
+							good = true
 						}
 					}
-					return false
-				}}
-				ok2 = q.FindPath() == nil
-			}
-			r.Check(ok2, fn, "waiters removed only after being closed", p.Pos(instrPos(x)), "the delete follows the loop that closes every channel of the entry",
-				"an entry is deleted from the waiter table without its channels having been closed: a goroutine blocked in WaitForMark on that index is never released although the watermark reaches it")
-		case *ssa.MapUpdate:
-			if !isWaiterMap(x.Map.Type()) {
-				return
-			}
-			n++
-			good := false
-			if cl, ok := x.Value.(*ssa.Call); ok {
-				if bi, ok := cl.Call.Value.(*ssa.Builtin); ok && bi.Name() == "append" {
-					if lk, ok := cl.Call.Args[0].(*ssa.Lookup); ok && lk.X == x.Map && sameSource(lk.Index, x.Key) {
-						good = true
-					}
 				}
+				r.Check(good, fn, "waiter entries only grow", p.Pos(instrPos(x)), "waiters[k] = append(waiters[k], …)", "an entry of the waiter table is overwritten: waiters registered earlier on that index are forgotten and never released")
 			}
-			r.Check(good, fn, "waiter entries only grow", p.Pos(instrPos(x)), "waiters[k] = append(waiters[k], …)", "an entry of the waiter table is overwritten: waiters registered earlier on that index are forgotten and never released")
-		}
-	})
+		})
+	}
 	if n == 0 {
-		r.Undecided(fn, "waiter table", "", "no update of a map[…][]chan found in the consumer")
+		r.Undecided(p.FnName(a.process), "waiter table", "", "no update of a map[…][]chan found in the consumer")
 	}
 }
 
@@ -514,6 +524,49 @@ func runRecoverLevels(c *Ctx, r *RuleRun) {
 				bi, isBi := lc.Call.Value.(*ssa.Builtin)
 				return isBi && bi.Name() == "len" && isLoadOfField(lc.Call.Args[0], levels) && stripValue(cm.Y) == idx
 			})
+			if !ok2 {
+				// a helper called with the level before this point that returns only with len(levels) > its parameter
+				eachInstr(f, func(i2 ssa.Instruction) {
+					cl, isCall := i2.(*ssa.Call)
+					if !isCall || !dominatesInstr(cl, ia) {
+						return
+					}
+					g := cl.Call.StaticCallee()
+					if g == nil || !p.InModule(g) {
+						return
+					}
+					for ai, arg := range cl.Call.Args {
+						if stripValue(arg) != idx || ai >= len(g.Params) {
+							continue
+						}
+						prm := g.Params[ai]
+						all, nret := true, 0
+						eachInstr(g, func(i3 ssa.Instruction) {
+							ret, isRet := i3.(*ssa.Return)
+							if !isRet {
+								return
+							}
+							nret++
+							if !hasFact(ret, func(cm Cmp) bool {
+								if cm.Y == nil || cm.Op != ">" {
+									return false
+								}
+								lc, isC := stripValue(cm.X).(*ssa.Call)
+								if !isC {
+									return false
+								}
+								bi, isBi := lc.Call.Value.(*ssa.Builtin)
+								return isBi && bi.Name() == "len" && isLoadOfField(lc.Call.Args[0], levels) && stripValue(cm.Y) == ssa.Value(prm)
+							}) {
+								all = false
+							}
+						})
+						if all && nret > 0 {
+							ok2 = true
+						}
+					}
+				})
+			}
 			r.Check(ok2, fn, "levels[level] exists", p.Pos(instrPos(ia)), "dominated by len(levels) > level (exit of the loop that grows the slice)",
 				"the level list is indexed without a dominating `len(levels) > level`: with a single `if` a directory whose lowest level is empty (all of L0 compacted away before Close) makes Open panic")
 		})
@@ -951,27 +1004,42 @@ func runTraceGuards(c *Ctx, r *RuleRun) {
 				return
 			}
 			nUp++
-			r.Check(hasFact(mu, isFlag(a.fReadOnly, false)), fn, "buffered only if not read-only", p.Pos(instrPos(mu)), "dominated by !readOnly",
+			r.Check(p.hasFactIP(mu, isFlag(a.fReadOnly, false), 0), fn, "buffered only if not read-only", p.Pos(instrPos(mu)), "dominated by !readOnly",
 				"an entry is put into the write buffer without the read-only check having passed")
-			r.Check(hasFact(mu, isFlag(a.fDiscarded, false)), fn, "buffered only if not finished", p.Pos(instrPos(mu)), "dominated by !discarded",
+			r.Check(p.hasFactIP(mu, isFlag(a.fDiscarded, false), 0), fn, "buffered only if not finished", p.Pos(instrPos(mu)), "dominated by !discarded",
 				"an entry is put into the write buffer of a finished transaction")
-			nonEmpty := hasFact(mu, func(cm Cmp) bool {
+			keyField := p.Field("types", "Entry", "Key")
+			isTheKey := func(v ssa.Value) bool {
+				if sameSource(v, mu.Key) {
+					return true
+				}
+				// in a validation helper: the Key of the entry, or the key string, it was handed
+				if fv, _ := loadedField(stripValue(v)); fv != nil && fv == keyField {
+					return true
+				}
+				if pr, isP := stripValue(v).(*ssa.Parameter); isP && pr.Parent() != mu.Parent() {
+					bt, isB := pr.Type().Underlying().(*types.Basic)
+					return isB && bt.Info()&types.IsString != 0
+				}
+				return false
+			}
+			nonEmpty := p.hasFactIP(mu, func(cm Cmp) bool {
 				if cm.Y == nil {
 					return false
 				}
-				if s, isS := constString(cm.Y); isS && s == "" && cm.Op == "!=" && sameSource(cm.X, mu.Key) {
+				if s, isS := constString(cm.Y); isS && s == "" && cm.Op == "!=" && isTheKey(cm.X) {
 					return true
 				}
 				// len(key) != 0 / > 0
 				if k, isK := constInt(cm.Y); isK && k == 0 && (cm.Op == "!=" || cm.Op == ">") {
 					if lc, isC := stripValue(cm.X).(*ssa.Call); isC {
-						if bi, isBi := lc.Call.Value.(*ssa.Builtin); isBi && bi.Name() == "len" && sameSource(lc.Call.Args[0], mu.Key) {
+						if bi, isBi := lc.Call.Value.(*ssa.Builtin); isBi && bi.Name() == "len" && isTheKey(lc.Call.Args[0]) {
 							return true
 						}
 					}
 				}
 				return false
-			})
+			}, 0)
 			r.Check(nonEmpty, fn, "buffered only under a non-empty key", p.Pos(instrPos(mu)), "dominated by key != \"\"",
 				"an entry can be buffered under the empty key: the documented ErrEmptyKey answer is skipped and the misuse has an effect (the entry is committed)")
 		})
@@ -987,7 +1055,7 @@ func runTraceGuards(c *Ctx, r *RuleRun) {
 		n := 0
 		for _, cl := range callsTo(p, a.get, search) {
 			n++
-			r.Check(hasFact(cl, isFlag(a.fDiscarded, false)), p.FnName(a.get), "store read only if not finished", p.Pos(instrPos(cl)), "dominated by !discarded",
+			r.Check(p.hasFactIP(cl, isFlag(a.fDiscarded, false), 0), p.FnName(a.get), "store read only if not finished", p.Pos(instrPos(cl)), "dominated by !discarded",
 				"Get reads the store although the transaction may be finished: a handle that was committed or discarded keeps answering reads at a timestamp the read mark no longer protects")
 		}
 		if n == 0 {
